@@ -190,7 +190,7 @@ func c09(c *ctx) {
 	}
 	// callbacks
 	for _, rej := range []string{"onrequest", "onhost", "onheader", "onbefore", "negotiate"} {
-		for _, st := range []int{0, -1, 403, 401, 400, 500, 503} {
+		for _, st := range []int{0, -1, -2, 403, 401, 400, 500, 503} {
 			for _, variant := range []string{"allok", "nohost", "badupgrade", "noextra", "http10"} {
 				q := base
 				q.Extra = variant != "noextra"
